@@ -437,6 +437,25 @@ def validate_runs(ver, binp, family, trace_module, wd, stage="runs", jobs=12, ge
     return summ
 
 
+def run_extras(ver, binp, wd):
+    """Behaviour beyond the listed properties (spec/Data.tla): recorded and validated like everything else, but a mismatch is a
+    NOTE of the hosting check, never a violation of the hosted property."""
+    t0 = time.time()
+    tdir = os.path.join(wd, "extra")
+    summ = run_harness(binp, ["gen", "extra", ver.tier, str(ver.seed), tdir])
+    shards = sorted(os.path.join(tdir, f) for f in os.listdir(tdir) if f.endswith(".ndjson"))
+    n, mism = validate_shards("Trace_Extra", "Trace_Extra.cfg", shards, wd)
+    kinds = {}
+    for m in mism:
+        kinds.setdefault(m.get("why"), []).append(m)
+    for w, ms in sorted(kinds.items()):
+        ex = {k: v for k, v in ms[0].items() if k not in ("fam", "why")}
+        ver.notes.append(f"beyond the listed properties (spec/Data.tla): {len(ms)} events fail '{w}', e.g. {json.dumps(ex)[:300]}")
+    ver.cov["stages"].append({"stage": "extra: spec/Data.tla (registered tags, type names, Int order, context threading) - notes only",
+                              "events_validated": n, "mismatches_reported_as_notes": len(mism), "wall_s": round(time.time() - t0, 1)})
+    shutil.rmtree(tdir, ignore_errors=True)
+
+
 def generic_replay(doc):
     """Re-run the case of a replay file on the current tree and show specification vs observation."""
     binp = cargo_build("vh")
